@@ -1178,6 +1178,26 @@ def exit_context(interp, cm, node):
 # ----------------------------------------------------------------------------------------------
 # methods of abstract objects and values
 # ----------------------------------------------------------------------------------------------
+def _injective_key(kt, b):
+    """Is the key template certainly different for different elements of the family bound by b?  (the element itself, its
+    key, its position, a name built from one of these, or a tuple with such a component)"""
+    if isinstance(kt, ElemV):
+        return kt.var == b or (isinstance(kt.var, tuple) and kt.var[:1] == ("copy",) and kt.var[1] == b)
+    if isinstance(kt, LinV):
+        return any(isinstance(t, tuple) and t[:2] == ("pos", b) or t == ("elem", b, "key") or t == ("elem", b, "pos") for t, c in kt.lin[0])
+    if isinstance(kt, NameV):
+        return any(isinstance(x, tuple) and len(x) == 3 and x[0] == "elem" and x[1] == b and x[2] in ("key", "pos", "str", "plain") for x in kt.parts)
+    if isinstance(kt, TupleV):
+        return any(_injective_key(i, b) for i in kt.items)
+    if isinstance(kt, Const):
+        return False
+    if isinstance(kt, Sym):
+        lab = kt.label
+        # int(x) / cast of the element's own key
+        return isinstance(lab, tuple) and len(lab) == 2 and lab[0] in ("int",) and lab[1] in (("elem", b, "key"), ("elem", b, "pos"))
+    return False
+
+
 def dict_view(interp, ref, o: HDict, which):
     segs = []
     for k, v in o.entries.items():
@@ -1187,6 +1207,10 @@ def dict_view(interp, ref, o: HDict, which):
         segs.append(("one", kv if which == "keys" else (v if which == "values" else TupleV((kv, v)))))
     for e in o.each:
         _, b, fam, g, kt, vt = e
+        if not _injective_key(kt, b) and isinstance(fam, tuple) and fam[:1] == ("members",):
+            # a mapping filled per element of a family under a key that is a function of the element's content (its text,
+            # a hash, an attribute): elements with equal keys collapse, so the mapping may hold fewer entries than the family
+            fam = ("members", ("distinct-by", desc(kt), fam[1]))
         segs.append(("each", b, fam, g, kt if which == "keys" else (vt if which == "values" else TupleV((kt, vt)))))
     if o.sym:
         b = interp.fresh_var("k")
